@@ -29,6 +29,8 @@ let check inp obs =
   match split_ws inp with
   | "root" :: v :: opstrs ->
     let ver = ver_of v in
+    let has_commit = List.mem "W" opstrs in
+    let opstrs = List.filter (fun s -> s <> "W") opstrs in
     let parsed = List.map parse_op opstrs in
     (* histories at each H *)
     let hist = ref [] and acc = ref [] in
@@ -49,7 +51,8 @@ let check inp obs =
                 (if canon then "model-canonical" else "model-noncanonical");
                 (if pinned_eq then "pinned-eq" else "pinned-differs");
                 (if nkeys = 0 then "final-empty" else if nkeys < 4 then "final-1-3" else "final-4+");
-                (if List.length hist > 1 then "intermediate-hash" else "single-hash")]
+                (if List.length hist > 1 then "intermediate-hash" else "single-hash");
+                (if has_commit then "with-commit" else "no-commit")]
                @ (if guard then ["guard-delete-exhausted"] else []) in
     { prop_ok = prop; model_eq = eq; nontrivial = (List.length all_ops >= 2);
       finding = (if (not prop) && guard then "delete-exhausted-key" else "-");
